@@ -145,7 +145,9 @@ struct Rendered {
 }
 
 /// `err`: 0 = no error anywhere; 1 = a validation error in the lint's file; errors of the PARSING phases in the other
-/// file: 2 = a syntax error, 3 = definitions without a module, 4 = a preprocessor error
+/// file: 2 = a syntax error, 3 = definitions without a module, 4 = a preprocessor error; rule violations that the
+/// PARSER reports itself, in the lint's own file (the file is syntactically valid, its attributes apply): 5 = a tag
+/// out of range, 6 = a return tuple of one
 fn render(t: &Template, places: &[(Place, Arg)], err: u8) -> Rendered {
     let mut text = String::new();
     for (line, s) in &t.lines {
@@ -169,6 +171,12 @@ fn render(t: &Template, places: &[(Place, Arg)], err: u8) -> Rendered {
     }
     if err == 1 {
         text.push_str("compact struct BAD {}\n");
+    }
+    if err == 5 {
+        text.push_str("struct BAD5 { tag(-1) x: int32? }\n");
+    }
+    if err == 6 {
+        text.push_str("interface BAD6 { op() -> (a: int32) }\n");
     }
     let mut other = String::new();
     for (p, a) in places {
@@ -382,10 +390,10 @@ impl Product {
 }
 impl Family for Product {
     fn name(&self) -> String {
-        format!("single-placement/{} templates x 8 placements x 5 arguments x {{alone, next to a validation error, next to a file with a syntax error / without a module / with a preprocessor error}} x {{lint in the first file, in the second file}}", self.ts.len())
+        format!("single-placement/{} templates x 8 placements x 5 arguments x {{alone, next to a validation error, next to a file with a syntax error / without a module / with a preprocessor error, next to a rule violation reported by the parser itself (tag out of range, return tuple of one) in the same file}} x {{lint in the first file, in the second file}}", self.ts.len())
     }
     fn len(&self) -> u64 {
-        self.ts.len() as u64 * 8 * 5 * 5 * 2
+        self.ts.len() as u64 * 8 * 5 * 7 * 2
     }
     fn describe(&self, idx: u64) -> Value {
         let (t, p, a, e) = self.decode(idx % (self.len() / 2));
@@ -409,10 +417,10 @@ impl Family for Product {
 }
 impl Product {
     fn decode(&self, idx: u64) -> (&Template, Place, Arg, u8) {
-        let e = (idx % 5) as u8;
-        let a = ARGS[((idx / 5) % 5) as usize].clone();
-        let p = PLACES[((idx / 25) % 8) as usize];
-        let t = &self.ts[(idx / 200) as usize];
+        let e = (idx % 7) as u8;
+        let a = ARGS[((idx / 7) % 5) as usize].clone();
+        let p = PLACES[((idx / 35) % 8) as usize];
+        let t = &self.ts[(idx / 280) as usize];
         (t, p, a, e)
     }
 }
